@@ -22,22 +22,6 @@ def DepOf (inp : RunInput) (dd : Name → Den) (n x : Name) : Prop :=
   x ∈ inp.taskDep n ∨ CalcOf inp dd n x ∨
   ∃ c, CalcOf inp dd n c ∧ (dd c).rs.good = true ∧ (x ∈ (inp.calcRes c).tasks ∨ x ∈ (inp.calcRes c).files)
 
-/-- first pass of `Runner.select_task` over the dependency list `L` (`stage1` is the case `L = taskDep n`) -/
-def stage1L (inp : RunInput) (dd : Name → Den) (L : List Name) (n : Name) : Stage1 :=
-  if L.any (fun d => (dd d).isIgn) = true ∨ inp.ignored n = true then .ign
-  else if L.any (fun d => (dd d).isFail) = true then .unmet
-  else if inp.statusOf n = .error then .depErr
-  else if effStatus inp n = .utd then .utd
-  else .run
-
-def combineL (inp : RunInput) (dd : Name → Den) (L : List Name) (n : Name) : Den :=
-  match stage1L inp dd L n with
-  | .ign => .ign
-  | .unmet => .fail .unmet
-  | .depErr => .fail .depErr
-  | .utd => .utd
-  | .run => stage2 inp dd n
-
 theorem stage1L_static (inp : RunInput) (dd : Name → Den) (n : Name) : stage1L inp dd (inp.taskDep n) n = stage1 inp dd n := rfl
 theorem combineL_static (inp : RunInput) (dd : Name → Den) (n : Name) :
     combineL inp dd (inp.taskDep n) n = combine inp dd n := rfl
